@@ -262,7 +262,16 @@ func (v *PacketDslVisitorImpl) VisitFieldDefinitionWithAttribute(ctx *gen.FieldD
 			}
 			// the attribute belongs to this field only: a MetaData-typed field shares its attribute
 			// object with the MetaData entry and with every other field of that type
-			fs := f.Attr.(*model.FixedStringFieldAttribute)
+			fs, isFixed := f.Attr.(*model.FixedStringFieldAttribute)
+			if !isFixed {
+				v.BinModel.AddSyntaxError(&model.SyntaxError{
+					Line:            ctx.GetStart().GetLine(),
+					Column:          ctx.GetStart().GetTokenSource().GetCharPositionInLine(),
+					Msg:             "Padding attribute is only allowed on a fixed length string field: " + f.Name,
+					OffendingSymbol: nil,
+				})
+				continue
+			}
 			f.Attr = &model.FixedStringFieldAttribute{
 				Length: fs.Length,
 				Padding: &model.Padding{
